@@ -58,8 +58,12 @@ for sid in sorted(os.listdir(os.path.join(VERIF, "seeded"))):
     try:
         hits = {}
         own = meta["breaks_property"]
-        for pid in ([own] if own in claimed else []) + [p for p in claimed if p != own]:
-            c = subprocess.run(["./check", pid], cwd=VERIF, capture_output=True, text=True)
+        from concurrent.futures import ThreadPoolExecutor
+        order = ([own] if own in claimed else []) + [p for p in claimed if p != own]
+        first = subprocess.run(["./check", order[0]], cwd=VERIF, capture_output=True, text=True)      # fills the fact cache
+        with ThreadPoolExecutor(max_workers=6) as ex:
+            rest = list(ex.map(lambda q: subprocess.run(["./check", q], cwd=VERIF, capture_output=True, text=True), order[1:]))
+        for pid, c in zip(order, [first] + rest):
             viol = [l for l in c.stdout.splitlines() if l.startswith("VIOLATION")]
             if c.returncode == 1 and viol:
                 lines = [l.strip() for l in c.stdout.splitlines() if re.match(r"\s+R\d", l)]
